@@ -290,7 +290,8 @@ def shards(tier, seed):
             for gname, g in groups:
                 out.append(_mk(f"sym-n5-{op}-{gname}", P, 5, 4, {"r": op, "r0": g}, True, 100))
         for op in tops:
-            out.append(_mk(f"conc-n6-{op}", LEAVES_CONC, 6, 5, {"r": op}, False, 100))
+            # the choice-only driver's budget is wall-clock: generous, the shard needs ~30 s CPU
+            out.append(_mk(f"conc-n6-{op}", LEAVES_CONC, 6, 5, {"r": op}, False, 400))
     else:
         P = LEAVES_SYM
         out.append(_mk("sym-n6-atom", P, 1, 0, {}, True, 100))
